@@ -79,8 +79,18 @@ VARIANTS = [(n, ["b", n]) for n in (
     ('z8', ["a", i8, 0]), ('z16', ["a", ["b", "gint16"], 0]), ('z32', ["a", i32, 0]), ('z64', ["a", i64, 0]),
     ('zptr', ["a", ptr, 0]), ('zdbl', ["a", dbl, 0]),
 ]
-ATOMS = CORE + VARIANTS
+# pointers that are array-typed in the GIR, alone and as elements of fixed-size arrays (gchar **lists[3],
+# gint *rows[2], GPtrArray *buckets[2] ...): not part of the all-kinds alphabet, enumerated by position (see all_specs)
+PTRARR = [('zarr', ["za", ["b", "utf8"]]), ('parr', ["pa", ["b", "gint"]]), ('garray', ["ga", "array"]),
+          ('gptrarray', ["ga", "ptrarray"]), ('gbytearray', ["ga", "bytearray"]), ('glist', ["gl", "list"]),
+          ('ghash', ["gl", "hash"])]
+EXTRA = [(n, t) for n, t in PTRARR if n not in ('parr', 'glist', 'ghash')] + \
+        [('%s[%d]' % (n, k), ["a", t, k]) for k in (1, 2, 3) for n, t in PTRARR]
+ATOMS = CORE + VARIANTS + EXTRA
 NCORE = len(CORE)
+NALL = len(CORE) + len(VARIANTS)       # kinds of the all-kinds alphabet
+EXTRA_IDX = list(range(NALL, len(ATOMS)))
+EXTRA_N2_IDX = [i for i in EXTRA_IDX if ATOMS[i][0].endswith('[2]')]
 CB = [n for n, _ in ATOMS].index('cb')
 # scalar kinds used for the exhaustive inner layouts of the nesting families
 INNER = [a for a in CORE if a[0] in ('i8', 'u16', 'i32', 'i64', 'flt', 'dbl', 'ptr', 'bool', 'en', 'arr', 'cb', 'long')]
@@ -229,11 +239,11 @@ def all_specs(tier):
         ex = (CB,) if cont == 'U' else ()      # function-pointer members of unions: family x
         for idx in seqs(NCORE, core_len, exclude=ex):
             out.append(('seq', cont, idx))
-        for idx in seqs(len(ATOMS), 2, skip_all_below=NCORE, exclude=ex):
+        for idx in seqs(NALL, 2, skip_all_below=NCORE, exclude=ex):
             out.append(('seq', cont, idx))
         if thorough:
             # length 3 with exactly one non-core kind, at every position
-            for idx in itertools.product(range(len(ATOMS)), repeat=3):
+            for idx in itertools.product(range(NALL), repeat=3):
                 if sum(1 for i in idx if i >= NCORE) == 1 and not any(i in ex for i in idx):
                     out.append(('seq', cont, idx))
     # length 3 with at least one zero-length array (first / middle / last) among i8, i32, ptr, dbl
@@ -242,7 +252,23 @@ def all_specs(tier):
         for idx in itertools.product(ZSEQ_IDX, repeat=3):
             if any(i in Z_IDX for i in idx) and ('seq', cont, idx) not in have:
                 out.append(('seq', cont, idx))
+    # array-typed pointers and fixed-size arrays of them: alone, and in first / middle / last position
+    base = ZSEQ_IDX[:4]
+    for cont in 'SU':
+        for x in EXTRA_IDX:
+            out.append(('seq', cont, (x,)))
+            for a in base:
+                out.append(('seq', cont, (x, a)))
+                out.append(('seq', cont, (a, x)))
+                for b in base:
+                    out.append(('seq', cont, (x, a, b)))
+                    out.append(('seq', cont, (a, x, b)))
+                    out.append(('seq', cont, (a, b, x)))
     inner = []
+    for ic in 'SU':
+        for x in EXTRA_N2_IDX:                      # ... and nested by value in another record
+            inner.append((ic, (x,)))
+            inner.append((ic, (base[0], x)))
     for ic in 'SU':
         for L in (1, 2):
             for idx in itertools.product(INNER_IDX, repeat=L):
@@ -613,15 +639,17 @@ def run(ctx):
                  'FieldBlob.struct_offset, EnumBlob.storage_type read by vt/typelib.py); both must agree, with helper/'
                  'inner types declared before and after their users. seq: all member sequences of length <= %d over %d '
                  'core kinds and of length <= 2%s over all %d kinds, struct and union; n1/n2: nesting depth 1 and 2 with '
-                 'every inner layout of length <= 2 over %d kinds and over the 6 zero-length arrays; seq also has every '
+                 'every inner layout of length <= 2 over %d kinds and over the 6 zero-length arrays; seq also has %d array-typed pointer kinds '
+                 '(gchar**, gint*, GArray*, GPtrArray*, GByteArray*, and [1],[2],[3] of those and of GList*/GHashTable*) alone '
+                 'and in first/middle/last position among i8,i32,ptr,dbl, nested by value through n1/n2, and every '
                  'length-3 sequence over {i8,i32,ptr,dbl, T[0] for 6 element types} with a zero-length array; en: all %d (min,max) pairs over %d boundary values x '
                  '{enumeration, bitfield}; x: %d scanner-producible special shapes (one violation key per mechanism). '
                  'non-trivial = every case except bit-field ones'
                  % (4 if thorough else 3, NCORE, ' (plus length 3 with exactly one non-core kind)' if thorough else '',
-                    len(ATOMS), len(INNER),
+                    NALL, len(INNER), len(EXTRA),
                     len(ENUM_VALUES) * (len(ENUM_VALUES) + 1) // 2, len(ENUM_VALUES), len(X_CASES)),
             bounds={'core_len': 4 if thorough else 3, 'variant_len': '2 + one-variant triples' if thorough else 2, 'core_kinds': NCORE,
-                    'kinds': len(ATOMS), 'inner_kinds': len(INNER), 'inner_len': 2, 'enum_values': len(ENUM_VALUES),
+                    'kinds': NALL, 'pointer_array_kinds': len(EXTRA), 'inner_kinds': len(INNER), 'inner_len': 2, 'enum_values': len(ENUM_VALUES),
                     'cases': dict((f, len(v)) for f, v in sorted(by_fam.items())), 'batch': BATCH,
                     'orders': dict((f, len(orders_for(f, ctx.tier))) for f in sorted(by_fam))})
     nchunks = max(32, len(batches) // 3)
